@@ -165,7 +165,7 @@ def run(chk: Check) -> None:
                           if isinstance(t, ast.Attribute) and norm(t.value) == 'self'} if init_f is not None else set()
             memo_ok = set()
             for a in inst_attrs:
-                stores = [n for f_ in pl.vmethods.values() for n in ast.walk(f_.node) if isinstance(n, ast.Assign) and any(isinstance(t, ast.Subscript) and norm(t.value) == f'self.{a}' for t in n.targets)]
+                stores = [n for f_ in pl.emethods.values() for n in ast.walk(f_.node) if isinstance(n, ast.Assign) and any(isinstance(t, ast.Subscript) and norm(t.value) == f'self.{a}' for t in n.targets)]
                 if stores and all(isinstance(n.value, ast.Call) and norm(n.value.func) == 'self._loader.load_object' for n in stores):
                     memo_ok.add(f'self.{a}[{hf.params[2]}]')
             ok_cls = bool(got) and (got - memo_ok) <= {want}
@@ -215,8 +215,14 @@ def run(chk: Check) -> None:
     init = prog.view(pl.vmethods['__init__'])
     ff = chk.ctx.facts.analyse(init)
     icfg = ff.cfg
-    ext = [n for n in icfg.nodes if n.kind == 'stmt' and isinstance(n.ast, ast.Assign) and norm(n.ast.targets[0]) == 'self._load_context' and 'copyextend(loader=loader)' in norm(n.ast.value)]
+    # the context extended with the configured loader is what ends up in self._load_context -- assigned directly, or built in a local that is stored afterwards on every path
+    ext = [n for n in icfg.nodes if n.kind == 'stmt' and isinstance(n.ast, ast.Assign) and 'copyextend(loader=loader)' in norm(n.ast.value)]
     ok = len(ext) == 1 and ('notnone', 'loader') in ff.at(ext[0])
+    if ok and norm(ext[0].ast.targets[0]) != 'self._load_context':
+        tv = norm(ext[0].ast.targets[0])
+        fin = [n for n in icfg.nodes if n.kind == 'stmt' and isinstance(n.ast, ast.Assign) and norm(n.ast.targets[0]) == 'self._load_context' and norm(n.ast.value) == tv]
+        rebinds = [n for n in icfg.nodes if n.kind == 'stmt' and isinstance(n.ast, ast.Assign) and norm(n.ast.targets[0]) == tv and n is not ext[0] and n.id in icfg.reachable([ext[0]], edge_ok=no_exc)]
+        ok = isinstance(ext[0].ast.targets[0], ast.Name) and bool(fin) and not rebinds and icfg.must_pass(ext[0], [icfg.exit], lambda m: m in fin, edge_ok=no_exc)
     sets = [n for n in icfg.nodes if n.kind == 'stmt' and isinstance(n.ast, ast.Assign) and norm(n.ast.targets[0]) == 'self._loader']
     ok = ok and any(norm(s.ast.value) == 'loader' and ('notnone', 'loader') in ff.at(s) for s in sets) and any('get_object_loader()' in norm(s.ast.value) and ('none', 'loader') in ff.at(s) for s in sets)
     chk.ob('PROV-loader', init, ok, 'a configured loader is used for loading classes AND put into the load context; without one the global default is used', kind='loader-configured')
